@@ -28,6 +28,14 @@ func parseCase(line string, sc *scratch) (string, string) {
 			fc.files = append(fc.files, mfile{name: common.Unhex(p[0]), kind: p[1][0], size: sz, data: unhexb(p[3])})
 		}
 		return runF(fc, sc)
+	case "D":
+		var fs []mfile
+		for _, w := range strings.Fields(secs[2]) {
+			p := strings.Split(w, ":")
+			sz, _ := strconv.ParseInt(p[2], 10, 64)
+			fs = append(fs, mfile{name: common.Unhex(p[0]), kind: p[1][0], size: sz, data: unhexb(p[3])})
+		}
+		return runD(fs, sc)
 	case "Z":
 		var zc zcase
 		h := strings.Fields(secs[2])
@@ -94,6 +102,7 @@ func main() {
 	np := common.Atoi(a["--np"], 1000)
 	nf := common.Atoi(a["--nf"], 500)
 	nz := common.Atoi(a["--nz"], 500)
+	nd := common.Atoi(a["--nd"], 300)
 	// every pool element once, alone and in a few positions (seed independent)
 	for _, pool := range [][]string{elPlain, elSpecial, elCase, elWin, elDots, elBadASCII, elUnicode, elBadUTF8, elLong, elTooLong} {
 		for _, e := range pool {
@@ -111,6 +120,13 @@ func main() {
 	}
 	for i := 0; i < nz; i++ {
 		out.Emit(runZ(genZip(rng), sc))
+	}
+	for i := 0; i < nd; i++ {
+		t := treeOf(genFiles(rng))
+		if len(t) == 0 {
+			continue
+		}
+		out.Emit(runD(t, sc))
 	}
 	fmt.Fprintf(os.Stderr, "c15 harness: %d cases\n", out.N)
 }
